@@ -30,6 +30,9 @@ def run(ctx) -> None:
     # R6: the verdict is taken over the whole listing: one search over the complete in-order stream
     from ._matchrules import scan_rules
     scan_rules(ctx, "C01.R6.one-search-over-whole-stream", "C01.R6.stream-is-whole-listing")
+    # R7: the flags a regex is generated under are the rule's own
+    from ._matchrules import compiled_with_own_config
+    compiled_with_own_config(ctx, "C01.R7.compiled-with-own-config")
     # R4: YAML keys -> stored flags
     I = make_interp(ctx.p)
     for mn in (None, True, False):
